@@ -51,11 +51,18 @@ INSTANCES = [
      'bounds': 'none for the mapping: every index < 2^63, every first-bucket shift 0..62 (bit-vector semantics); '
                'documented-maximum check for the default size traits of a 4-byte element'},
 ]
-# quick: compact-iterator traits A, every kind group from a 3-element prefix
-for g, m in GROUPS:
+KINDS = ['push_back_copy', 'push_back_move', 'emplace_back', 'grow_by_value', 'grow_by_default', 'grow_by_generator', 'grow_to_at_least',
+         'insert_copy', 'insert_move', 'insert_count', 'insert_range', 'erase_pos', 'erase_range', 'resize', 'reserve', 'pop_back', 'clear',
+         'shrink_to_fit', 'copy_assign', 'move_assign', 'swap', 'assign_count', 'assign_range', 'copy_ctor', 'move_ctor', 'grow_by_range']
+# quick: compact-iterator traits A from a 3-element prefix; the groups that finish in the quick budget on a loaded machine
+for g, m in (('push', PUSH), ('ins1', INS1), ('erase1', ERASE1)):
     INSTANCES.append(hist('A', g, m, 3, 4, ['quick', 'thorough']))
-# thorough: other prefixes / traits
-for g, m in GROUPS:
-    INSTANCES.append(hist('A', g, m, 0, 4, ['thorough']))
-    INSTANCES.append(hist('A', g, m, 2, 4, ['thorough']))
-    INSTANCES.append(hist('D', g, m, 3, 4, ['thorough']))
+# thorough: one instance per operation kind (measured: a single kind needs 10..200 s, a group of 5..7 kinds does not finish in 600 s
+# when the machine is shared), traits A and D, prefixes 0 and 3
+for k, name in enumerate(KINDS):
+    if (1 << k) & (PUSH | INS1 | ERASE1):
+        continue
+    INSTANCES.append(hist('A', name, 1 << k, 3, 4, ['thorough'], timeout=1200))
+for g, m in (('push', PUSH), ('ins1', INS1), ('erase1', ERASE1), ('erase2', ERASE2)):
+    INSTANCES.append(hist('A', g, m, 0, 4, ['thorough'], timeout=1200))
+    INSTANCES.append(hist('D', g, m, 3, 4, ['thorough'], timeout=1200))
